@@ -1311,7 +1311,7 @@ fn probe_cache(buf: &[u8], queries: &[(String, String, usize, String)]) -> Vec<V
         out.push(match r {
             Ok((prov, n)) => json!({"status": "ok", "provenance_ok": prov, "frames": n, "line": enc::dec_usize(*line)}),
             Err(p) => json!({"status": "panic", "provenance_ok": true, "frames": 0, "line": enc::dec_usize(*line), "detail": p,
-                             "class": enc::s(class), "method": enc::s(method)}),
+                             "class": enc::s(&class.chars().take(40).collect::<String>()), "method": enc::s(&method.chars().take(40).collect::<String>())}),
         });
     }
     out
@@ -1371,7 +1371,7 @@ fn corrupt(sink: &mut Sink, o: &Opts) {
                     let calls = probe_cache(buf.bytes(), &fixed);
                     // only failing probes are kept verbatim; passing ones are summarised to keep the trace small
                     let failing: Vec<Value> = calls.iter().filter(|c| c["status"] != "ok" || c["provenance_ok"] != true).cloned().collect();
-                    let shown = if failing.is_empty() { calls.into_iter().take(1).collect() } else { failing };
+                    let shown: Vec<Value> = if failing.is_empty() { calls.into_iter().take(1).collect() } else { failing.into_iter().take(3).collect() };
                     sink.emit(json!({"t": "corrupt", "what": format!("field@{off}={val}"), "parse": parse_outcome(&b), "calls": shown, "len": b.len()}));
                 }
             }
@@ -1390,7 +1390,7 @@ fn corrupt(sink: &mut Sink, o: &Opts) {
                 };
                 let calls = probe_cache(view, &fixed);
                 let failing: Vec<Value> = calls.iter().filter(|c| c["status"] != "ok" || c["provenance_ok"] != true).cloned().collect();
-                let shown = if failing.is_empty() { calls.into_iter().take(1).collect() } else { failing };
+                let shown: Vec<Value> = if failing.is_empty() { calls.into_iter().take(1).collect() } else { failing.into_iter().take(3).collect() };
                 sink.emit(json!({"t": "corrupt", "what": format!("misaligned+{shift}"), "parse": parse, "calls": shown, "len": view.len()}));
             }
         }
@@ -1443,7 +1443,7 @@ fn corrupt(sink: &mut Sink, o: &Opts) {
                 let buf = crate::handles::Aligned::new(&b);
                 let calls = probe_cache(buf.bytes(), &fixed);
                 let failing: Vec<Value> = calls.iter().filter(|c| c["status"] != "ok" || c["provenance_ok"] != true).cloned().collect();
-                let shown = if failing.is_empty() { calls.into_iter().take(1).collect() } else { failing };
+                let shown: Vec<Value> = if failing.is_empty() { calls.into_iter().take(1).collect() } else { failing.into_iter().take(3).collect() };
                 sink.emit(json!({"t": "corrupt", "what": what, "parse": parse_outcome(&b), "calls": shown, "len": b.len()}));
             }
         }
@@ -1455,7 +1455,7 @@ fn corrupt(sink: &mut Sink, o: &Opts) {
                 let parse = parse_outcome(b);
                 let calls = probe_cache(buf.bytes(), &queries[..queries.len().min(3)]);
                 let failing: Vec<Value> = calls.iter().filter(|c| c["status"] != "ok" || c["provenance_ok"] != true).cloned().collect();
-                let shown = if failing.is_empty() { calls.into_iter().take(1).collect() } else { failing };
+                let shown: Vec<Value> = if failing.is_empty() { calls.into_iter().take(1).collect() } else { failing.into_iter().take(3).collect() };
                 sink.emit(json!({"t": "corrupt", "what": format!("prefix{cut}"), "parse": parse, "calls": shown, "len": b.len()}));
             }
         }
